@@ -7,6 +7,8 @@
 (*  (c) y wraps the message naming x in a self-signed MsgExec;               *)
 (*  (d)-(g) the same through x/authz grants: granted for the type, granted   *)
 (*      for another type, granted and revoked, executed by a third party.    *)
+(*  (h) the message names the group policy account (x/group) and is carried  *)
+(*      by a proposal of a member, of a stranger, or signed by a member.     *)
 (* Explored breadth-first; every behaviour is replayed on the real app.      *)
 EXTENDS Genesis
 
@@ -23,11 +25,20 @@ Gen == [accts |-> Accts,
         bcn |-> [feeReg |-> 4, feeRec |-> 1, feePur |-> 1, denom |-> "nund", def |-> 2, max |-> 4, startId |-> 1],
         str |-> [feeNum |-> 1, feeDen |-> 10]]
 
+GX(member, msgs) == Tx(<<[t |-> "GExec", member |-> member, msgs |-> msgs]>>)
 Prefix == << [a |-> "BeginBlock", dt |-> 1000],
              Tx(<<[t |-> "Raise", pur |-> "A3", amt |-> 7, denom |-> "nund"]>>),
              TxFee(<<[t |-> "WReg", owner |-> "A1", moniker |-> "m", name |-> "n", genesis |-> "g", type |-> "t"]>>, [nund |-> 4]),
              TxFee(<<[t |-> "BReg", owner |-> "A1", moniker |-> "m", name |-> "n"]>>, [nund |-> 4]),
              Tx(<<[t |-> "SCreate", sender |-> "A1", receiver |-> "A2", dep |-> 200, denom |-> "nund", rate |-> 1]>>),
+             \* the group policy account as a party: funded, whitelisted, owner of WRKChain 2 and BEACON 2, sender of a stream to A2
+             \* and receiver of one from A1 (everything it does goes through a proposal of a member)
+             Tx(<<[t |-> "Send", from |-> "A1", to |-> "grp", amt |-> 150, denom |-> "nund"]>>),
+             Tx(<<[t |-> "Whitelist", signer |-> "A1", addr |-> "grp", act |-> "add"]>>),
+             GX("A1", <<[t |-> "WReg", owner |-> "grp", moniker |-> "mg", name |-> "n", genesis |-> "g", type |-> "t"]>>),
+             GX("A2", <<[t |-> "BReg", owner |-> "grp", moniker |-> "mg", name |-> "n"]>>),
+             GX("A1", <<[t |-> "SCreate", sender |-> "grp", receiver |-> "A2", dep |-> 100, denom |-> "nund", rate |-> 1]>>),
+             Tx(<<[t |-> "SCreate", sender |-> "A1", receiver |-> "grp", dep |-> 100, denom |-> "nund", rate |-> 1]>>),
              EndEv, ComEv, [a |-> "BeginBlock", dt |-> 30000] >>
 
 \* message templates: T[i][1] = message naming x, T[i][2] = exact fee it must carry
@@ -85,7 +96,30 @@ GovChoices ==
                                                  Tx(<<[t |-> "Decide", signer |-> "A1", id |-> 1, d |-> "accept"]>>)>> \o Blocks(3) \o <<EndEv, ComEv>>],
     [ev |-> GovRaise(9),          \* not whitelisted: the proposal fails when it executes
      tail |-> Blocks(3) \o <<Tx(<<[t |-> "Decide", signer |-> "A1", id |-> 2, d |-> "accept"]>>)>> \o Blocks(2) \o <<EndEv, ComEv>>] }
-Choices == { [ev |-> e, tail |-> ScriptTail] : e \in Alphabet } \cup GrantChoices \cup GovChoices
+\* (h) the message names the group policy account and is carried by a proposal of a member (both members), of a stranger
+\*     (A3), or signed directly by a member's key; a member's proposal that carries a message naming the member itself
+GrpTemplates == <<
+  [t |-> "Raise", pur |-> "grp", amt |-> 3, denom |-> "nund"],
+  [t |-> "Decide", signer |-> "grp", id |-> 1, d |-> "accept"],
+  [t |-> "Whitelist", signer |-> "grp", addr |-> "A4", act |-> "add"],
+  [t |-> "WRec", owner |-> "grp", id |-> 2, h |-> 5, bh |-> "b", ph |-> "", h1 |-> "", h2 |-> "", h3 |-> ""],
+  [t |-> "WBuy", owner |-> "grp", id |-> 2, n |-> 1],
+  [t |-> "BRec", owner |-> "grp", id |-> 2, hash |-> "x", subt |-> 7],
+  [t |-> "BBuy", owner |-> "grp", id |-> 2, n |-> 1],
+  [t |-> "WRec", owner |-> "grp", id |-> 1, h |-> 5, bh |-> "b", ph |-> "", h1 |-> "", h2 |-> "", h3 |-> ""],      \* A1's WRKChain
+  [t |-> "BBuy", owner |-> "grp", id |-> 1, n |-> 1],                                                            \* A1's BEACON
+  [t |-> "STopUp", sender |-> "grp", receiver |-> "A2", dep |-> 10, denom |-> "nund"],
+  [t |-> "SRate", sender |-> "grp", receiver |-> "A2", rate |-> 2],
+  [t |-> "SCancel", sender |-> "grp", receiver |-> "A2"],
+  [t |-> "SClaim", sender |-> "A1", receiver |-> "grp"],
+  [t |-> "SCancel", sender |-> "grp", receiver |-> "A1"],                                                        \* roles reversed
+  [t |-> "Send", from |-> "grp", to |-> "A4", amt |-> 5, denom |-> "nund"] >>
+GroupAlphabet ==
+  UNION { { GX(y, <<GrpTemplates[i]>>) : y \in {"A1", "A2", "A3"} }
+          \cup { Tx(<<GrpTemplates[i]>>) @@ [signers |-> <<"A1">>] } : i \in DOMAIN GrpTemplates }
+  \cup { GX("A1", <<Templates("A1")[i][1]>>) : i \in {1, 4, 8, 10} }
+  \cup { GX("A2", <<GrpTemplates[10], GrpTemplates[15] @@ [amt |-> 100000]>>) }       \* top-up rolled back with the proposal's second message
+Choices == { [ev |-> e, tail |-> ScriptTail] : e \in Alphabet \cup GroupAlphabet } \cup GrantChoices \cup GovChoices
 Init == /\ st = StateOf(Gen) /\ hist = <<[a |-> "InitChain", g |-> Gen]>> /\ todo = Prefix /\ phase = "prefix" /\ nTx = 0
 Run == /\ todo # <<>>
        /\ st' = Step(st, Head(todo)).st /\ hist' = Append(hist, Head(todo)) /\ todo' = Tail(todo)
